@@ -298,6 +298,9 @@ func init() {
 		explanation: "Decides structural necessary conditions of C04 for every function of mat: TWIN.sync — the receiver-sizing pairs reuseAsNonZeroed/reuseAsZeroed ('must be kept in sync') of six types differ only by use/useZeroed and the final Zero(); TWIN.bounds — the bounds and default element accessors check the same guards and address the same Data element on every access path; CONFIG — mat type-checks with one API under bounds/safe; STRIDE — every Data[...] index/slice and every (Data, Stride) pair handed to blas64/lapack64 uses the stride of the same matrix (views with Stride > Cols are addressed with their own stride everywhere). NILRECV — no call in mat passes a constant nil pointer to a function that dereferences it on every path (found and repaired: Cholesky.SymRankOne panicked for every Vector that is not a RawVectorer — a result depending on the operand's concrete type). Does not decide agreement of specialised dispatch arms with the generic At loop.",
 		assumptions: commonAssumptions,
 		run: func(tier string, res *core.Result) {
+			pu := paramuse.Run(def, core.Pkgs("./mat"))
+			pu.Floor("parameters", 550)
+			res.Merge(pu)
 			r := stride.Run(def, core.Pkgs("./mat"))
 			r.Floor("index_sites", 200)
 			r.Floor("literal_pairs", 40)
@@ -502,6 +505,9 @@ func init() {
 		explanation: "Decides the representation mechanisms behind C12 for the 8 map-backed graph types of graph/simple and graph/multi, uid.Set and the 30 iterator types of graph/iterator, in both the default and the safe build: GRAPHINV.converse — every adjacency mutation is translated into an effect (ADD/DEL/DELROW/DELCOL/PRUNE on from/to or edges/lines, through local aliases and map-literal arms; an untranslatable mutation fails the check as an unrecognised idiom) and each method's effect set is closed under the converse, so forward and reverse adjacency stay mirror images; GRAPHINV.remove — RemoveNode deletes the key, the row and the column of every relation and releases the ID; GRAPHINV.ids — a new node key is followed on all paths by Use, Release is preceded by the key's deletion, line insertions are followed by Use on the line pool; GRAPHINV.uid — in uid.Set every update of used executes together with the dual update of free ('fresh IDs never collide with live ones'); GRAPHINV.iter — every path of Next() that can return true advances a cursor field read by Len(); TWIN.sibstate — each iterator method and the corresponding method of its Weighted sibling type (all build configurations' files) make the same assignments to the cursor/length/current fields; CONFIG — graph/iterator, simple and multi type-check with one API under safe; GRAPHINV.panicorder — in the 22 container methods of graph/simple and graph/multi that panic explicitly, none of the 26 panics is reachable after a write to the receiver's state ('documented panics leave the graph unchanged'); GRAPHINV.absent — the dense-matrix graphs compare a weight with the absent marker only through the NaN-aware isSame, so From/To/HasEdge*/Edges agree for every absent value; GRAPHINV.iterreset — a value-receiver method that consumes the iterator held by its receiver resets it before returning. Does NOT decide the dense-matrix graphs' index arithmetic, iterator Reset implementations, panics raised inside callees, Undirect/Copy adapters.",
 		assumptions: commonAssumptions,
 		run: func(tier string, res *core.Result) {
+			pu := paramuse.Run(def, core.Pkgs("./graph/simple", "./graph/multi", "./graph/iterator", "./graph/set/uid"))
+			pu.Floor("parameters", 220)
+			res.Merge(pu)
 			for _, c := range []core.Config{{}, {Tags: "safe"}} {
 				od := graphinv.RunOrder(c)
 				od.Floor("explicit_panics", 20)
@@ -539,6 +545,9 @@ func init() {
 		explanation: "Decides the 'decoders are total ... never an internally inconsistent object' mechanisms of C16 for the binary decoders of mat, stat/card and mathext/prng and for graph6/digraph6: DECODE.mul — a product of two decoded integers is preceded on every path by a division-based overflow guard; DECODE.range — a decoded integer used as a shift count or allocation size is range-checked in an error-returning branch on every path before that use; DECODE.len — a variable-length field decoded into the receiver is length-checked before success is returned; DECODE.selfcmp — no compatibility comparison has two sides denoting the same expression ('merges only with compatible sketches'); DECODE.gate — every exported graph6/digraph6 accessor passes IsValid before touching raw bytes (helpers that index without a length test are found by a must-pass analysis, not listed); DECODE.clone — the clone methods of the RDF canonicalisation state give every slice/map field fresh storage (a shared `ordered` slice makes the canonical labelling depend on recursion order); DECODE.fields — every receiver field a Marshal* method writes out is stored by the matching Unmarshal* method (23 codec method pairs of mat, stat/card, mathext/prng, cytoscapejs, sigmajs, gexf12), so no decoded object keeps part of the receiver's previous state; TWIN.generated — hll64.go is the image of hll32.go. Found and repaired: rows*cols overflow in Dense.UnmarshalBinary[From], unvalidated p/register in HyperLogLog.UnmarshalBinary, the self-comparison in Union. Does NOT decide round-trip equality, the gocc/Ragel generated DOT and N-Quads parsers, or RDF canonicalisation. DECODE.errdrop — in the codec packages the error result of a same-package function is never discarded by a call statement or a blank assignment (found and repaired: the DOT printers dropped the error of their own recursive call, so a mismatched subgraph two levels down produced truncated output and a nil error).",
 		assumptions: commonAssumptions,
 		run: func(tier string, res *core.Result) {
+			pu := paramuse.Run(def, core.Pkgs("./graph/encoding/...", "./stat/card", "./mathext/prng"))
+			pu.Floor("parameters", 125)
+			res.Merge(pu)
 			codecFiles := func(rel string) bool { return !strings.HasPrefix(rel, "mat/") || rel == "mat/io.go" }
 			ed := decode.RunErrDrop(def, core.Scope{Patterns: []string{"./graph/encoding/...", "./graph/formats/rdf", "./graph/formats/dot", "./stat/card", "./mathext/prng", "./mat"}, Files: codecFiles})
 			ed.Floor("same_package_error_calls", 30)
@@ -573,6 +582,9 @@ func init() {
 		explanation: "Decides the structural clauses of C17: RESET.fields — in Reset(n) of FFT, CmplxFFT, DCT, DST and QuarterWaveFFT every struct field is reassigned or handed to the fftpack initialiser on every path and workspaces are resliced to lengths depending on n alone ('the same answer regardless of what lengths it was previously Reset with'); WINDOW.pointwise — every window function of dsp/window stores to seq[J] a value that reads no element other than seq[J]; WINDOW.sibling — the weight expression of each real window and of its Complex sibling are identical after inlining locals and constants (14 pairs); TWIN.bounds — the bounds-checked and unchecked fftpack array accessors have identical bodies once guards are set aside. Found and repaired: Tukey.TransformComplex mirrored the left taper into the right. Does NOT decide the butterflies, twiddle factors, scaling, dst/src aliasing or closed-form window values (value-level).",
 		assumptions: commonAssumptions,
 		run: func(tier string, res *core.Result) {
+			pu := paramuse.Run(def, core.Pkgs("./dsp/..."))
+			pu.Floor("parameters", 270)
+			res.Merge(pu)
 			gw := globalx.Run(def, core.Pkgs("./dsp/..."), globalx.Options{})
 			gw.Floor("functions", 110)
 			res.Merge(gw)
@@ -599,6 +611,9 @@ func init() {
 		explanation: "Decides the table-level clauses of C18 by exact evaluation of literals in the source (no gonum code runs): CONST.stencil — each of the six predefined finite-difference formulas satisfies the moment conditions sum c_i*loc_i^k = k!*[k==Derivative] for all k below its point count, in exact rationals ('each formula differentiates polynomials up to its order exactly'); CONST.legendre — for every tabulated n < 101: rows have exactly the shape tabulated() indexes, each node is a root of P_n to 1e-19 (320-bit arithmetic), each weight equals 2/((1-x^2)P_n'(x)^2) to 1e-19, is positive, and the weights sum to 2; CONST.hermite — 200 rows with n entries, symmetric increasing nodes, positive weights summing to sqrt(pi); GOPROTO.sibling on diff/fd (OriginKnown honoured by serial and concurrent paths alike). Found and repaired: the n=26 Legendre weight row. Does NOT decide the Bogaert asymptotic branch (n > 100), Simpson/Romberg weights, interpolants or dual-number algebra.",
 		assumptions: commonAssumptions,
 		run: func(tier string, res *core.Result) {
+			pu := paramuse.Run(def, core.Pkgs("./diff/fd", "./num/...", "./integrate/...", "./interp"))
+			pu.Floor("parameters", 290)
+			res.Merge(pu)
 			c := constx.Run(def)
 			c.Floor("stencil_formulas", 6)
 			c.Floor("stencil_moment_conditions", 14)
